@@ -86,6 +86,19 @@ type caller struct {
 	res    Res
 }
 
+// tokBytes: token ids 1..3 differ only in leading zero bytes (distinct tokens that a sloppy table key would confuse)
+func tokBytes(id int) []byte {
+	switch id {
+	case 1:
+		return []byte{0x01}
+	case 2:
+		return []byte{0x00, 0x01}
+	case 3:
+		return []byte{0x00, 0x00, 0x01}
+	}
+	return []byte{0xE0, byte(id)}
+}
+
 func runOne(st Stim, transport string) Trace {
 	n := len(st.Tok)
 	tr := Trace{Transport: transport, T: st.T, Tok: st.Tok, Ev: []Ev{}, Answers: make([][]int, n), Hung: []int{}}
@@ -111,7 +124,7 @@ func runOne(st Stim, transport string) Trace {
 		cs[c].state, cs[c].cancel = "out", cancel
 		mu.Unlock()
 		go func() {
-			resp, err := cn.do(ctx, []byte{0xE0, byte(st.Tok[c-1])}, fmt.Sprintf("/c%d", c))
+			resp, err := cn.do(ctx, tokBytes(st.Tok[c-1]), fmt.Sprintf("/c%d", c))
 			mu.Lock()
 			defer mu.Unlock()
 			r := Res{Tok: []int{}, Pay: []int{}, WhenRet: evIdx}
